@@ -1,4 +1,5 @@
 import TcheranVerif.Proofs.MagicCert
+import TcheranVerif.Proofs.Sweep.S10  -- only to bound how many parts are checked at once (≈8 GB each)
 /-! C07 sweep, part 14: rook squares [59, 60] — decided by the kernel alone -/
 namespace Tcheran.Sweep
 
